@@ -100,6 +100,30 @@ def main():
         if w is not live:
             w.terminate(timeout=1)
     del anon
+    # the same for a process worker: its OS process runs on whether or not the caller holds the Worker object
+    import multiprocessing as _mp
+    import replay_targets as T
+    from pyworkers.process import ProcessWorker
+    gc.collect()
+    n0 = sum(1 for w in Worker.active_children())
+    pids0 = {p.pid for p in _mp.active_children()}
+    ProcessWorker(T.sleep_for, args=(20,))         # fire and forget: no reference kept by the caller
+    gc.collect()
+    time.sleep(0.2)
+    new_procs = [p for p in _mp.active_children() if p.pid not in pids0 and p.is_alive()]
+    anon = [w for w in Worker.active_children()]
+    obs['unreferenced_live_process_yielded'] = len(anon) - n0
+    obs['unreferenced_live_process_running'] = len(new_procs)
+    if new_procs and len(anon) - n0 != 1:
+        viol.append(f'a process worker the caller keeps no reference to is yielded {len(anon) - n0} times by active_children() while its process '
+                    f'(pid {new_procs[0].pid}) is running: autoclose and the SIGTERM handler cannot reach it')
+    for w in anon:
+        if w is not live:
+            w.terminate(timeout=1)
+    for p in new_procs:
+        if p.is_alive():
+            p.kill()
+    del anon
     # L1 under interference: another thread registers a worker at the first moment the registry lock is free during
     # active_children() (a legal schedule, forced here by a lock wrapper of the harness): the registration must survive
     class SpyLock:
